@@ -150,6 +150,17 @@ pub fn gen_c04(seed: u64, thorough: bool) -> Plan {
     let mode = C04_MODES[round % C04_MODES.len()];
     let transport = if mode.starts_with("ws") { Transport::Ws } else if mode.starts_with("tls-") { Transport::Tls } else { Transport::Tcp };
     let (mut plan, mut g) = link_plan("C04", "link-seg", seed, &cells, transport);
+    if mode == "ws-merge" {
+        // messages of every size: the merged message of a bulk transfer is as large as the transfer (up to a few hundred KiB
+        // here) - a stream is valid however much of it one WebSocket message carries
+        let bulk = |g: &mut Gen| -> Vec<Op> { (0..g.range(2, 6)).flat_map(|_| [Op::Write(*g.pick(&[3_000usize, 16_000, 33_000, 60_000, 70_000]) + g.below(900) as usize), Op::Pause(1)]).collect() };
+        if g.chance(60) {
+            let (up, down) = (bulk(&mut g), bulk(&mut g));
+            let f = &mut plan.flows[0];
+            f.up = up;
+            f.down = down;
+        }
+    }
     plan.extra["mode"] = mode.into();
     plan.extra["multi_samples"] = (if thorough { 400 } else { 40 }).into();
     plan.extra["pair_samples"] = (if thorough { 1500 } else { 0 }).into();
